@@ -108,6 +108,7 @@ func utf16Pair(r rune) (rune, rune) {
 }
 
 func (w *docWriter) jsonVal(v Val, st JSONStyle, depth int) {
+	beat()
 	switch v.K {
 	case VNull, VUndef:
 		s := len(w.b)
